@@ -4,6 +4,7 @@ import (
 	"bytes"
 	"compress/zlib"
 	"encoding/binary"
+	"strings"
 	"time"
 
 	"github.com/paulmach/osm"
@@ -212,50 +213,50 @@ func encDense(d *Dense, st *strtab, dmg string) []byte {
 		return v
 	}
 	switch dmg {
-	case "dense-user-sid-out-of-range":
+	case "user-sid-out-of-range":
 		if n > 0 {
 			usids[n-1] = 100000
 		}
-	case "dense-keyvals-key-out-of-range":
+	case "keyvals-key-out-of-range":
 		for i := 0; i+1 < len(kv); i++ {
 			if kv[i] != 0 {
 				kv[i] = 100000
 				break
 			}
 		}
-	case "dense-keyvals-val-out-of-range":
+	case "keyvals-val-out-of-range":
 		for i := 0; i+1 < len(kv); i++ {
 			if kv[i] != 0 {
 				kv[i+1] = 100000
 				break
 			}
 		}
-	case "dense-keyvals-unterminated":
+	case "keyvals-unterminated":
 		if len(kv) > 0 {
 			kv = kv[:len(kv)-1]
 		}
-	case "dense-keyvals-odd":
+	case "keyvals-odd":
 		// a key without a value at the very end
 		if len(kv) > 0 {
 			kv = append(kv[:len(kv)-1], 1)
 		}
-	case "dense-lats-short":
+	case "lats-short":
 		lats = cut(lats)
-	case "dense-lons-short":
+	case "lons-short":
 		lons = cut(lons)
-	case "dense-versions-short":
+	case "versions-short":
 		vers = cut(vers)
-	case "dense-timestamps-short":
+	case "timestamps-short":
 		tss = cut(tss)
-	case "dense-changesets-short":
+	case "changesets-short":
 		css = cut(css)
-	case "dense-uids-short":
+	case "uids-short":
 		uids = cut(uids)
-	case "dense-usids-short":
+	case "usids-short":
 		usids = cut(usids)
-	case "dense-visibles-short":
+	case "visibles-short":
 		viss = cut(viss)
-	case "dense-keyvals-short":
+	case "keyvals-short":
 		// drop the whole tag list (and delimiter) of the last node
 		if n > 0 && len(kv) > 0 {
 			k := len(kv) - 1
@@ -266,7 +267,7 @@ func encDense(d *Dense, st *strtab, dmg string) []byte {
 		}
 	}
 	var w buf
-	if dmg != "dense-no-ids" {
+	if dmg != "no-ids" {
 		w.fBytes(1, packedSint(delta(ids)))
 	}
 	if d.Info {
@@ -291,10 +292,10 @@ func encDense(d *Dense, st *strtab, dmg string) []byte {
 		}
 		w.fBytes(5, iw.b)
 	}
-	if dmg != "dense-no-lats" {
+	if dmg != "no-lats" {
 		w.fBytes(8, packedSint(delta(lats)))
 	}
-	if dmg != "dense-no-lons" {
+	if dmg != "no-lons" {
 		w.fBytes(9, packedSint(delta(lons)))
 	}
 	if d.KeysVals {
@@ -335,9 +336,9 @@ func encWay(wy *Way, st *strtab, dmg string) []byte {
 	}
 	lats, lons := wy.Lats, wy.Lons
 	switch dmg {
-	case "way-lats-longer-than-refs":
+	case "lats-longer-than-refs":
 		lats = append(append([]int64{}, lats...), 7)
-	case "way-lons-longer-than-refs":
+	case "lons-longer-than-refs":
 		lons = append(append([]int64{}, lons...), 7)
 	}
 	if lats != nil {
@@ -363,19 +364,19 @@ func encRelation(r *Relation, st *strtab, dmg string) []byte {
 			roles[i], ids[i], types[i] = st.id(m.Role), m.Ref, int64(m.Type)
 		}
 		switch dmg {
-		case "rel-role-out-of-range":
+		case "role-out-of-range":
 			if n > 0 {
 				roles[n-1] = 100000
 			}
-		case "rel-more-roles-than-types":
+		case "more-roles-than-types":
 			if n > 0 {
 				types = types[:n-1]
 			}
-		case "rel-memids-short":
+		case "memids-short":
 			if n > 0 {
 				ids = ids[:n-1]
 			}
-		case "rel-types-longer":
+		case "types-longer":
 			types = append(types, 0)
 		}
 		w.fBytes(8, packedInt(roles))
@@ -397,6 +398,14 @@ func encPlainNode(n *DNode, st *strtab) []byte {
 // PrimitiveBlock returns the serialized PrimitiveBlock message.
 func (b *Block) PrimitiveBlock() []byte {
 	st := newStrtab(b.ExtraStrings)
+	// Damage is "<target>:<name>" with target dense, way, rel or block.
+	part := func(target string) string {
+		if strings.HasPrefix(b.Damage, target+":") {
+			return b.Damage[len(target)+1:]
+		}
+		return ""
+	}
+	ddmg, wdmg, rdmg, bdmg := part("dense"), part("way"), part("rel"), part("block")
 	var groups [][]byte
 	for gi := range b.Groups {
 		g := &b.Groups[gi]
@@ -405,13 +414,13 @@ func (b *Block) PrimitiveBlock() []byte {
 			w.fBytes(1, encPlainNode(&g.PlainNodes[i], st))
 		}
 		if g.Dense != nil {
-			w.fBytes(2, encDense(g.Dense, st, b.Damage))
+			w.fBytes(2, encDense(g.Dense, st, ddmg))
 		}
 		for i := range g.Ways {
-			w.fBytes(3, encWay(&g.Ways[i], st, b.Damage))
+			w.fBytes(3, encWay(&g.Ways[i], st, wdmg))
 		}
 		for i := range g.Relations {
-			w.fBytes(4, encRelation(&g.Relations[i], st, b.Damage))
+			w.fBytes(4, encRelation(&g.Relations[i], st, rdmg))
 		}
 		for _, id := range g.Changesets {
 			var c buf
@@ -438,7 +447,7 @@ func (b *Block) PrimitiveBlock() []byte {
 	if b.ParamsFirst {
 		params()
 	}
-	if b.Damage != "no-stringtable" {
+	if bdmg != "no-stringtable" {
 		w.fBytes(1, st.bytes())
 	}
 	for _, g := range groups {
@@ -447,16 +456,17 @@ func (b *Block) PrimitiveBlock() []byte {
 	if !b.ParamsFirst {
 		params()
 	}
-	if b.Damage == "primitiveblock-truncated-varint" {
+	if bdmg == "truncated-varint" {
 		w.b = append(w.b, 0x88, 0x01, 0x80) // field 17, varint that never ends
 	}
-	if b.Damage == "primitiveblock-bad-length" {
+	if bdmg == "bad-length" {
 		w.b = append(w.b, 0x12, 0x7f, 0x01) // field 2, length 127, 1 byte of payload
 	}
 	return w.b
 }
 
-func (h *Header) bytes() []byte {
+// Bytes returns the serialized HeaderBlock message.
+func (h *Header) Bytes() []byte {
 	var w buf
 	if h.BBox != nil {
 		var bb buf
@@ -596,7 +606,7 @@ func (f *File) Encode() *Encoded {
 	e := &Encoded{}
 	if f.Header != nil {
 		e.Starts = append(e.Starts, int64(len(e.Data)))
-		blob := EncodeBlob(f.Header.bytes(), f.Header.Enc.blobOpts())
+		blob := EncodeBlob(f.Header.Bytes(), f.Header.Enc.blobOpts())
 		e.Data = append(e.Data, EncodeFileBlock("OSMHeader", blob, FileBlockOpts{IndexData: f.Header.Enc.IndexData})...)
 	}
 	for i := range f.Blocks {
